@@ -361,6 +361,62 @@ func callsMethod(fd *ast.FuncDecl, name string) bool {
 	return found
 }
 
+// waitedClears: the assignments `X.waited = false` of a function body; guarded = every one of them is a statement of the
+// THEN block of an `if Y.GetWaitLock() == nil` (vacuously true when there is none: a flag that is never cleared here cannot
+// hide a waiter).
+func waitedClears(fd *ast.FuncDecl) (int, bool) {
+	n, guarded := 0, true
+	isClear := func(st ast.Stmt) bool {
+		as, ok := st.(*ast.AssignStmt)
+		if !ok || len(as.Lhs) != 1 || len(as.Rhs) != 1 {
+			return false
+		}
+		se, ok := as.Lhs[0].(*ast.SelectorExpr)
+		if !ok || se.Sel.Name != "waited" {
+			return false
+		}
+		id, ok := as.Rhs[0].(*ast.Ident)
+		return ok && id.Name == "false"
+	}
+	emptyQueueTest := func(e ast.Expr) bool {
+		be, ok := e.(*ast.BinaryExpr)
+		if !ok || be.Op != token.EQL {
+			return false
+		}
+		ce, ok := be.X.(*ast.CallExpr)
+		if !ok || len(ce.Args) != 0 {
+			return false
+		}
+		se, ok := ce.Fun.(*ast.SelectorExpr)
+		if !ok || se.Sel.Name != "GetWaitLock" {
+			return false
+		}
+		id, ok := be.Y.(*ast.Ident)
+		return ok && id.Name == "nil"
+	}
+	okClears := map[ast.Stmt]bool{}
+	ast.Inspect(fd.Body, func(x ast.Node) bool {
+		if is, ok := x.(*ast.IfStmt); ok && is.Init == nil && emptyQueueTest(is.Cond) {
+			for _, st := range is.Body.List {
+				if isClear(st) {
+					okClears[st] = true
+				}
+			}
+		}
+		return true
+	})
+	ast.Inspect(fd.Body, func(x ast.Node) bool {
+		if st, ok := x.(ast.Stmt); ok && isClear(st) {
+			n++
+			if !okClears[st] {
+				guarded = false
+			}
+		}
+		return true
+	})
+	return n, guarded
+}
+
 // ---------------------------------------------------------------- emission
 
 type out struct {
@@ -590,6 +646,28 @@ func main() {
 			mentions(srv.funcs["LockDB.wakeUpWaitLocks"], "TIMEOUT_FLAG_LOCK_WAIT_WHEN_UNLOCK"))
 		fmt.Fprintf(w, "(* LockDB.Lock calls GetWaitLock (looks at the queue head before admitting a newcomer) *)\nDefinition lock_newcomer_checks_wait_queue : bool := %v.\n",
 			mentions(srv.funcs["LockDB.Lock"], "GetWaitLock"))
+		// ---- the waiter branches of doTimeOut / cancelWaitLock (a queued request leaves the queue without being served):
+		// the key's `waited` flag may be cleared only when GetWaitLock() finds no live waiter, and a wake-up pass follows
+		for _, fn := range []struct{ name, coq, what string }{
+			{"LockDB.doTimeOut", "timeout", "LockDB.doTimeOut"}, {"LockDB.cancelWaitLock", "cancel", "LockDB.cancelWaitLock"}} {
+			fd := srv.funcs[fn.name]
+			if fd == nil {
+				o.bad = append(o.bad, "server/db.go: "+fn.name+" not found")
+				fmt.Fprintf(w, "Definition %s_clears_waited_only_on_empty_queue := gen_unsupported \"%s not found\".\n", fn.coq, fn.name)
+				fmt.Fprintf(w, "Definition %s_runs_wake_pass := gen_unsupported \"%s not found\".\n", fn.coq, fn.name)
+				continue
+			}
+			n, guarded := waitedClears(fd)
+			fmt.Fprintf(w, "(* %s: %d assignment(s) `.waited = false`, every one directly under `if X.GetWaitLock() == nil` *)\nDefinition %s_clears_waited_only_on_empty_queue : bool := %v.\n",
+				fn.what, n, fn.coq, guarded)
+			fmt.Fprintf(w, "(* %s calls wakeUpWaitLocks *)\nDefinition %s_runs_wake_pass : bool := %v.\n", fn.what, fn.coq, mentions(fd, "wakeUpWaitLocks"))
+		}
+		if fd := srv.funcs["LockDB.UnLock"]; fd == nil {
+			o.bad = append(o.bad, "server/db.go: LockDB.UnLock not found")
+			fmt.Fprintln(w, "Definition unlock_runs_wake_pass := gen_unsupported \"LockDB.UnLock not found\".")
+		} else {
+			fmt.Fprintf(w, "(* LockDB.UnLock calls wakeUpWaitLocks *)\nDefinition unlock_runs_wake_pass : bool := %v.\n", mentions(fd, "wakeUpWaitLocks"))
+		}
 	}
 	o.bad = append(o.bad, bad...)
 	if len(o.bad) > 0 {
